@@ -14,6 +14,12 @@ CHECKS = {
  "C02": dict(engine="mem", category="model_checking", technique="exhaustive enumeration of access form x effective address (every offset within 9 bytes of both ends of every region, null, wrap-around, 2^63 away) x base+offset decomposition x region layout, each run on the interpreter against a containment predicate, with guard pages and canaries around every buffer",
    text="One transition (one access) per case, complete product of the alphabets. Expected: Ok iff all bytes lie inside packet, metadata buffer, stack or one registered range; on Ok the loaded value / stored bytes must be exact and nothing else may change; on Err every byte of every buffer and all canaries must be unchanged; never a panic; a fault kills the worker and is attributed to the case.",
    design_ref="DESIGN.md section 4 C02"),
+ "C07": dict(engine="calls", category="model_checking", technique="exhaustive enumeration of call-graph programs (chains of depth 0..9 forward/backward, bounded self-recursion) x 16 body variants x stack-usage calculators x register values, each run on the reference machine (frames, callee-saved registers, r10 lowering, depth limit, stack bounds) and compared with the interpreter; JIT compared with the interpreter where defined",
+   text="Each program folds what the property talks about into its result: r6-r9 and the stack tag after every return, the frame distance r10(caller) - r10(callee) computed inside the callee, r0-r5 passing through call and return, resumption at call+1. The reference machine gives the value, or Err for depth > 8 / stack below its 512 bytes. The JIT's deviation (recorded finding) is recognised by a deviation model (frame distance 0); anything else it does differently is reported.",
+   design_ref="DESIGN.md section 4 C07"),
+ "C08": dict(engine="calls", category="model_checking", technique="exhaustive enumeration of helper id x all 16 registered subsets x call site (top level, local-call depth 1-3, after 0-2 earlier calls) x argument tuples x dst field x engine, with instrumented helpers whose 2-instruction assembly entry stub records rsp",
+   text="Per executed call: the helper registered under the id (and no other) ran exactly once, received (r1..r5) in order, was entered with rsp = 8 mod 16, its return value is in r0, r6/r7/r10 are unchanged and execution resumed after the call. Unregistered ids: interpreter Err when reached, both compilers refuse at compile time, no helper runs.",
+   design_ref="DESIGN.md section 4 C08"),
  "C09": dict(engine="ctx", category="model_checking", technique="exhaustive enumeration of VM kind x engine x every ordered pair of non-overlapping offsets x probe program x sequences of three executions with different packets (same address/different length, different address) plus a set_program round trip; each execution compared with values computed from the caller's buffer addresses",
    text="States = (VM kind, offsets, engine, probe, packet triple); each execution is a transition whose observation (r1, the two pointers in the fixed buffer, end-start, ldabs of first/last byte, both ends of the 512-byte stack) must equal the value the harness computes from the addresses of the buffers it passed. Compiled code runs in forked children.",
    design_ref="DESIGN.md section 4 C09"),
@@ -59,6 +65,7 @@ CHECKS = {
 }
 
 ENGINES = {
+ "calls": ("mc/src/callseng.rs", "kind A: call-graph and helper-call program generators over the reference machine / instrumented helpers"),
  "helpers": ("mc/src/helperseng.rs", "kind D: helper argument enumerator (stdout captured in a child)"),
  "api": ("mc/src/apieng.rs", "kind B: explicit-state search of a protocol model (stateright BFS to fix-point) with per-transition replay on the real VM"),
  "ctx": ("mc/src/ctxeng.rs", "kind A: VM-kind x engine x configuration x execution-sequence explorer"),
